@@ -27,7 +27,10 @@ Uses == {<<"N">>, <<"N", "+", "N">>, <<"(", "N", ")">>, <<"-", "N">>, <<"N1">>, 
          <<"V">>, <<"V", "+", "V">>, <<"V", "(", "2", ")">>}
 Tails == {<<>>, <<[k |-> "undef", name |-> "N"]>>, <<[k |-> "undef", name |-> "F"]>>,
           <<[k |-> "undef", name |-> "N"], D("N", <<"9">>)>>, <<[k |-> "undef", name |-> "xx"]>>,
-          <<[k |-> "undef", name |-> "F"], F("F", <<"z">>, <<"(", "z", "+", "1", ")">>)>>}
+          <<[k |-> "undef", name |-> "F"], F("F", <<"z">>, <<"(", "z", "+", "1", ")">>)>>,
+          \* two removals, the first one of a filler macro of the first block (with >= 100 fillers the second lies in a later block)
+          <<[k |-> "undef", name |-> "FILL3"], [k |-> "undef", name |-> "N"]>>, <<[k |-> "undef", name |-> "FILL3"], [k |-> "undef", name |-> "F"]>>,
+          <<[k |-> "undef", name |-> "FILL3"], [k |-> "undef", name |-> "xx"], D("xx", <<"4">>)>>}
 \* how the first definitions reach the preprocessor, and how many filler macros surround the menu (chunk boundaries at 100)
 Origins == {"source", "cmdline"}
 Fillers == {0, 97, 99, 100, 198}
@@ -40,7 +43,7 @@ Chosen == LET idx == {i \in sel : TRUE} IN
           [j \in 1..Cardinality(idx) |-> Menu[CHOOSE i \in idx : Cardinality({q \in idx : q < i}) = j - 1]]
 Dirs == Chosen \o tail
 \* an #undef or redefinition only makes sense for a name the selection defines; W needs N
-WellFormed == /\ \A i \in 1..Len(tail) : tail[i].k = "undef" => tail[i].name \in {Chosen[j].name : j \in 1..Len(Chosen)}
+WellFormed == /\ \A i \in 1..Len(tail) : tail[i].k = "undef" => (tail[i].name \in {Chosen[j].name : j \in 1..Len(Chosen)} \/ (tail[i].name = "FILL3" /\ filler > 3))
               /\ (2 \in sel => 1 \in sel) /\ (9 \in sel => 1 \in sel)
               /\ (origin = "cmdline" => 1 \in sel)
               /\ (filler # 0 => Cardinality(sel) <= 3)
